@@ -587,8 +587,6 @@ class Engine:
     def alloc(self, st: State, cls: str) -> VRef:
         r = st.next_ref
         st.next_ref = r + 1
-        # objects created by the program are not parsed-document objects
-        st.assume(z3.Not(ISDISK(r)))
         return VRef(r, cls)
 
     def havoc_heap(self, st: State, keys):
